@@ -449,5 +449,5 @@ PROPS["C14"] = {
     "assumptions": ["a panic in any goroutine terminates the relay exactly as it terminates the child", "og-rek is part of the relay's attack surface"],
     "quick": [R("TestPropAdminAndTraffic", 90, timeout=900), R("TestPropFilterValues", 20000), R("TestPropPickleBytes", 3000), R("TestPropPlainBytes", 3000), R("TestPropDatagramAndAMQPBytes", 5000)],
     "thorough": [R("TestPropAdminAndTraffic", 500, shards=12, timeout=3000), R("TestPropFilterValues", 400000, shards=4, timeout=3000), R("TestPropPickleBytes", 30000, shards=2, timeout=3000), R("TestPropPlainBytes", 100000, shards=2, timeout=3000), R("TestPropDatagramAndAMQPBytes", 100000, shards=2, timeout=3000),
-                 F("FuzzPickleHandle", "180s", timeout=1200)],
+                 F("FuzzPickleHandle", "180s", timeout=1200, workers=8)],
 }
